@@ -11,6 +11,7 @@
         // "no path segment delivered to a handler as a variable value is ever '.', '..' or the empty string"
         r is Ok ==> (forall|i: int| 0 <= i < r->Ok_0@.len() ==> kept_pieces(path.0)[i]@.len() > 0
             && (#[trigger] r->Ok_0@[i])@ != "."@ && r->Ok_0@[i]@ != ".."@ && r->Ok_0@[i]@.len() > 0), // @no_dot_or_empty_segment_is_delivered
+        segments_contract(path.0, r), // @the_contract_as_one_predicate
 //@ closure 0
 |segment: &&str| -> (b: bool) ensures b == (segment@.len() > 0)
 //@ closure 1
